@@ -422,7 +422,7 @@ def handleDouble (r : Reader) (w : String) : Bool × Reader :=
   let r := if isCueStarting w && w != r.lastCmd then { r with dbl := false } else r
   if dt && w == r.lastCmd then
     (true, { r with dbl := if isCueStarting w then true else r.dbl, lastCmd := "" })
-  else if isPac w && (r.lastCmd.splitOn w).length > 1 then (true, { r with lastCmd := "" })
+  else if isPac w && Str.contains w.toList r.lastCmd.toList then (true, { r with lastCmd := "" })
   else if (tabOffset w).isSome then
     if isPac r.lastCmd then (false, { r with lastCmd := r.lastCmd ++ " " ++ w }) else (true, r)
   else (false, { r with lastCmd := w })
